@@ -1,6 +1,8 @@
 package main
 
 import (
+	"encoding/binary"
+	"encoding/hex"
 	"fmt"
 	"math"
 	"os"
@@ -258,6 +260,21 @@ func (s *Sys) execRead(imm *iavl.ImmutableTree, toks []string) string {
 		return rBytes(s.tree.WorkingHash())
 	case "proof":
 		return s.execProof(imm, unhx(toks[1]))
+	case "proofbytes":
+		it := imm
+		if it == nil {
+			it = s.tree.ImmutableTree
+			_ = s.tree.WorkingHash()
+		}
+		p, err := it.GetProof(unhx(toks[1]))
+		if err != nil {
+			return "err"
+		}
+		bz, err := p.Marshal()
+		if err != nil {
+			return "err"
+		}
+		return "pb:" + hex.EncodeToString(bz)
 	case "gproof": // GetProof alone, verified with the value carried by the proof itself
 		it := imm
 		var root []byte
@@ -307,7 +324,7 @@ func (s *Sys) Exec(toks []string) string {
 		if !strings.HasPrefix(res, "err") && !strings.HasPrefix(res, "panic") {
 			s.pending = append(s.pending, toks)
 		}
-	case "save", "rollback", "reopen", "reopenat", "load", "lvfo", "savecs":
+	case "save", "wsave", "rollback", "reopen", "reopenat", "load", "lvfo", "savecs":
 		if !strings.HasPrefix(res, "err") {
 			s.pending = nil
 		}
@@ -335,6 +352,40 @@ func (s *Sys) exec1(toks []string) string {
 				return "err"
 			}
 			return rPair(rBytes(v), rBool(removed))
+		case "wsave":
+			// a commit whose physical writes are recorded: node keys in write order
+			if s.hooks == nil {
+				return "ws-nowrap"
+			}
+			s.hooks.writes = nil
+			s.hooks.record = true
+			h, v, err := t.SaveVersion()
+			s.hooks.record = false
+			var nodes []string
+			fastSeen, nodeSeen, orderOK := false, false, true
+			for _, w := range s.hooks.writes {
+				for _, o := range w {
+					switch {
+					case len(o.k) == 13 && o.k[0] == 's' && !o.del:
+						nodeSeen = true
+						nodes = append(nodes, fmt.Sprintf("%d.%d", int64(binary.BigEndian.Uint64(o.k[1:9])), binary.BigEndian.Uint32(o.k[9:13])))
+					case len(o.k) > 0 && (o.k[0] == 'f' || o.k[0] == 'm'):
+						fastSeen = true
+						if nodeSeen {
+							orderOK = false // index / label writes must precede the node writes
+						}
+					}
+				}
+			}
+			_ = fastSeen
+			s.hooks.writes = nil
+			if err != nil {
+				return "err"
+			}
+			if !orderOK {
+				return "ws-order"
+			}
+			return rPair("ws["+strings.Join(nodes, ",")+"]", rPair(rBytes(h), rInt(v)))
 		case "save":
 			h, v, err := t.SaveVersion()
 			if err != nil {
